@@ -19,6 +19,7 @@ pub mod c14;
 pub mod c16;
 pub mod c17;
 pub mod c18;
+pub mod c19;
 pub mod c20;
 pub mod c20b;
 
@@ -95,6 +96,10 @@ pub fn run(ctx: &mut Ctx) -> bool {
         "C18" => {
             ctx.rule = c18::RULE.into();
             c18::run(ctx)
+        }
+        "C19" => {
+            ctx.rule = c19::RULE.into();
+            c19::run(ctx)
         }
         "C20" => {
             ctx.rule = c20::RULE.into();
